@@ -1,3 +1,4 @@
+/- Helper lemmas for the layout calculus (C07). Core Lean only. -/
 import PrecondVerif.Model.Layout
 namespace PrecondVerif.Layout
 open PrecondVerif.Shapes
@@ -352,6 +353,68 @@ theorem shardedInit_decl (c : Cfg) (ps : List (List Nat)) (L : ShardedLayout)
       · simp only [hr, if_false, pure, Except.pure, Except.ok.injEq] at h ⊢
         subst h
         simp [shardedSig, leafSig, countLeaf, f32Leaf, DT.name, localSig_eq_declLocal, List.map_map, Function.comp_def]
+
+
+theorem skeleton_specMom (c : Cfg) (s : List Nat) (p : List String) (hp : p.length = s.length) :
+    skeleton (specMom c s p) = skeleton (qvSig (momQV c s)) := by
+  unfold specMom momQV
+  by_cases h : (c.memReduction && decide (s.length > 1)) = true
+  · have hlen : p.length > 1 := by
+      simp only [Bool.and_eq_true, decide_eq_true_eq] at h
+      omega
+    simp [h, hlen, skeleton, qvSig, f32Leaf, optLeafSig, leafSig, emptyList, DT.name]
+  · have h' : (c.memReduction && decide (s.length > 1)) = false := by simpa using h
+    simp [h', skeleton, qvSig, plainQV, f32Leaf, optLeafSig, leafSig, emptyList, DT.name]
+
+theorem skeleton_specLocal (c : Cfg) (s : List Nat) (p : List String) (ix : Nat) (hp : p.length = s.length) :
+    skeleton (specLocal c s p ix) = skeleton (localSig (localOf c s ix)) := by
+  have hm := skeleton_specMom c s p hp
+  unfold specLocal localSig localOf specTm
+  simp only [skeleton, List.map_cons, List.map_nil, hm]
+  cases h2 : c.fd <;> cases h2' : c.avgGrad <;>
+  cases h3 : c.trainMetrics <;>
+  cases h4 : c.genFd <;>
+  simp [skeleton, avgGradOf, metricsOf, agSig, tmSig, qvSig, plainQV, f32Leaf, optLeafSig, leafSig,
+    emptyList, masked, DT.name, h2, h2', h3, h4]
+
+/-- every parameter has a partition spec with one entry per dimension -/
+def specsFit : List (List Nat) → List (List String) → Prop
+  | [], _ => True
+  | _ :: _, [] => False
+  | s :: ss, p :: pp => p.length = s.length ∧ specsFit ss pp
+
+theorem skeleton_locals (c : Cfg) : ∀ (ps : List (List Nat)) (pspecs : List (List String)) (k : Nat),
+    specsFit ps pspecs →
+    (((ps.zip pspecs).zip (indexStarts c ps k)).map fun x => skeleton (specLocal c x.1.1 x.1.2 x.2)) =
+    ((ps.zip (indexStarts c ps k)).map fun x => skeleton (localSig (localOf c x.1 x.2)))
+  | [], _, _, _ => by simp [indexStarts]
+  | s :: ss, [], _, h => by cases h
+  | s :: ss, p :: pp, k, h => by
+    obtain ⟨h1, h2⟩ := h
+    simp only [indexStarts, List.zip_cons_cons, List.map_cons, skeleton_specLocal c s p k h1,
+      skeleton_locals c ss pp _ h2]
+
+theorem pspecDecl_skeleton (c : Cfg) (ps : List (List Nat)) (pspecs : List (List String)) (statSpec : List String)
+    (L : ShardedLayout) (hspec : specsFit ps pspecs)
+    (h : shardedInit c ps = .ok L) :
+    skeleton (pspecDecl c ps pspecs statSpec) = skeleton (shardedSig L) := by
+  unfold shardedInit at h
+  simp only [bind, Except.bind] at h
+  cases hv : validate c with
+  | error e => simp [hv] at h
+  | ok u =>
+    simp only [hv] at h
+    cases hgd : globalDims c ps with
+    | mk n ms =>
+      simp only [hgd] at h
+      by_cases hr : c.compRank ≠ 0 ∧ c.r + 2 ≥ ms
+      · simp [hr] at h
+      · simp only [hr, if_false, pure, Except.pure, Except.ok.injEq] at h
+        subst h
+        have hl := skeleton_locals c ps pspecs 0 hspec
+        simp only [pspecDecl, shardedSig, skeleton, List.map_cons, List.map_nil, List.map_map, Function.comp_def, leafSig]
+        simp only [Sig.node.injEq, true_and, List.cons.injEq, and_true]
+        exact hl
 
 
 end PrecondVerif.Layout
